@@ -248,7 +248,16 @@ def _relax_call(fn, env, args, kwargs):
                 out = bytearray([0x01 + i, 0xA0])
             rec["do"].append((i, data, out))
             return out, [Short(None)]
-    arch = types.SimpleNamespace(isa=types.SimpleNamespace(relocation_map={"long": Long, "short": Short}), name="spec")
+    class Fixed:
+        """a relocation type that can never be relaxed (Relocation.can_shrink's default)"""
+        name = "fixed"
+
+        def __init__(self, symbol_name, offset=0, addend=0):
+            pass
+
+        def can_shrink(self, sym_value, reloc_value):
+            return False
+    arch = types.SimpleNamespace(isa=types.SimpleNamespace(relocation_map={"long": Long, "short": Short, "fixed": Fixed}), name="spec")
     lk = Linker(arch)
     dst = lk.dst = ObjectFile(arch)
     A = dst.get_section("A", create=True)
@@ -258,6 +267,12 @@ def _relax_call(fn, env, args, kwargs):
     dst.add_symbol(0, "target", "global", env.symval, "A", "func", 0)
     r0 = dst.add_relocation(RelocationEntry("long", 0, "A", env.off0, env.add0))
     r1 = dst.add_relocation(RelocationEntry("long", 0, "A", env.off1, 0))
+    # a second section with a non-relaxable relocation at the SAME section-relative offset as relocation 0
+    Bs = dst.get_section("B", create=True)
+    Bs.data = bytearray(range(40, 56))
+    Bs.address = 0x4000
+    r2 = dst.add_relocation(RelocationEntry("fixed", 0, "B", env.off0, 7))
+    env["r2"] = r2
     lk._apply_relaxation_holes = lambda hole_map: rec.__setitem__("holes", {k: list(v) for k, v in hole_map.items()})
     env.update({"lk": lk, "rec": rec, "A": A, "dst": dst})
     fn(lk)
@@ -276,7 +291,12 @@ def _relax_post(e):
     out = [("can_shrink is asked once per relocation, with S = symbol value + section address and P = section address + offset",
             len(rec["can"]) == 2 and all(bool_(sv == o.symval + o.aA) and bool_(rv == o.aA + offs[i]) for (i, sv, rv) in rec["can"]))]
     rel = e.dst.relocations
-    out.append(("still two relocations", len(rel) == 2))
+    out.append(("still three relocations", len(rel) == 3))
+    keep = [r for r in rel if r.section == "B"]
+    out.append(("the relocation of the other section (same offset, not relaxable) is kept untouched",
+                len(keep) == 1 and keep[0].reloc_type == "fixed" and keep[0].symbol_id == 0 and bool_(keep[0].offset == offs[0]) and keep[0].addend == 7))
+    out.append(("the other section's bytes are untouched", bytes(e.dst.get_section("B").data) == bytes(range(40, 56))))
+    rel = [r for r in rel if r.section == "A"]
     want_holes = [(offs[i] + 2, 2) for i in (0, 1) if sh[i]]
     if want_holes:
         got = (rec["holes"] or {}).get("A", [])
@@ -312,7 +332,7 @@ def bool_(x):
 
 BOUNDED.append(Contract(
     "ppci.binutils.linker:Linker.do_relaxations", "C13",
-    label="Linker.do_relaxations [shape-bounded: 2 relaxable relocations at fixed offsets in a 16-byte section; relocation class and hole punching abstracted]",
+    label="Linker.do_relaxations [shape-bounded: 2 relaxable relocations at fixed offsets in a 16-byte section + 1 fixed relocation at the same offset in a second section; relocation class and hole punching abstracted]",
     grid=[{"off0": a, "off1": b} for a, b in ((0, 4), (2, 8), (4, 12))],
     modules=MODS, make=_mk_relax, call=_relax_call, requires=_relax_pre, ensures=_relax_post,
     sample_inputs=lambda g, rnd: [{"symval": 4, "aA": 0x100, "add0": 0, "sh0": a, "sh1": b} for a in (True, False) for b in (True, False)],
